@@ -511,8 +511,8 @@ def parse_authority(authority: bytes) -> list[Node]:
         )
     if not host:
         return out
-    if userinfo:
-        offset += 1  # for the @
+    # The host starts right after the last @, wherever the (possibly empty) username and password ended
+    offset = len(authority) - len(address)
     host = unquote_to_bytes(host)
     if host.startswith(b"["):
         if not host.endswith(b"]"):
